@@ -139,29 +139,42 @@ def exc_site(e: BaseException):
 
 
 def execute(w: World, ex, steps, opts: dict):
-    """Run the behaviour from the empty repository.  -> dict(events=[...], stop=None | dict(kind, at, ...)).
-    Every event holds the observed triple after the step and what status said; the run stops at the
-    first exception of an action; a status call that raises leaves an event without a report."""
+    """Run the behaviour from the empty repository.  `steps` is a list of steps, or an object with
+    .next(head, index, wd) -> step | None that chooses the next step from the *observed* state.
+    -> dict(events=[...], done=[steps taken], stop=None | dict(kind, at, ...)).
+    Every event holds the observed triple after the step and what status said.  The run stops at
+    the first exception of an action, and -- when the step carries the state the specification
+    expects (exp) -- at the first step whose observed triple differs from it (what follows would
+    only be consequences).  A status call that raises leaves an event without a report."""
     w.reset_empty()
     is_dul = isinstance(ex, DulExec)
-    head, wd = {}, {}
-    events = []
+    head, wd, idx = {}, {}, {}
+    events, done = [], []
     stop = None
     git_every = opts.get("git_every", True)
-    for k, raw in enumerate(steps):
+    adaptive = hasattr(steps, "next")
+    k = -1
+    while True:
+        k += 1
+        if adaptive:
+            raw = steps.next(head, idx, wd)
+            if raw is None:
+                break
+        else:
+            if k >= len(steps):
+                break
+            raw = steps[k]
         s = norm_step(raw)
+        if s["act"] == "ResetHard" and s["tree"] is None:
+            s["tree"] = dict(head)      # the tree a reset --hard to HEAD has to reproduce
+        done.append(s)
+        last = adaptive is False and k == len(steps) - 1
         ev = {"act": s["act"], "p": s["p"], "q": s["q"], "cell": s["cell"], "tree": s["tree"], "exp": s["exp"]}
         try:
             apply_action(w, ex, s, wd, opts, head)
         except Exception as e:          # noqa: BLE001 - whatever the entry point raises is the observation
             stop = {"kind": "action", "at": k, "act": s["act"], "exc": type(e).__name__, "msg": str(e)[:300],
                     "site": exc_site(e) if is_dul else "git", "tb": traceback.format_exc()[-1500:]}
-            # still project the state the failed action left behind (diagnosis, RoundTrip verdicts)
-            try:
-                stop["w"] = w.observe_wd()
-                stop["i"], _ = observe_index(w)
-            except Exception:            # noqa: BLE001
-                pass
             break
         if s["act"] in HEAD_ACTS or k == 0:
             head = w.git_ls_head()
@@ -170,7 +183,9 @@ def execute(w: World, ex, steps, opts: dict):
         idx, notes = observe_index(w)
         ev.update(h=dict(head), i=idx, w=dict(wd), notes=notes)
         ev["status_exc"] = None
-        if not s["obs"]:
+        exp = s["exp"]
+        diverged = exp is not None and (exp["h"] != head or exp["i"] != idx or exp["w"] != wd)
+        if not s["obs"] and not diverged:
             # a step already observed in another execution of the same transition: act only
             ev["rep"] = None
             events.append(ev)
@@ -190,12 +205,15 @@ def execute(w: World, ex, steps, opts: dict):
                 ev["tree_id"] = ex.write_tree()
             except Exception as e:      # noqa: BLE001
                 ev["tree_id"] = f"raised {type(e).__name__}: {str(e)[:100]}"
-            if is_dul and (git_every or k == len(steps) - 1):
+            if is_dul and (git_every or last or diverged):
                 ev["git_tree_id"] = w.git_write_tree(on_copy=True)
-        if is_dul and (git_every or k == len(steps) - 1):
+        if is_dul and (git_every or last or diverged):
             ev["git"] = w.git_status(on_copy=True)
         events.append(ev)
-    return {"events": events, "stop": stop, "opts": opts, "scheme": w.scheme.ident()}
+        if diverged:
+            stop = {"kind": "diverged", "at": k, "act": s["act"]}
+            break
+    return {"events": events, "done": done, "stop": stop, "opts": opts, "scheme": w.scheme.ident()}
 
 
 # --------------------------------------------------------------------------- trace (ndjson) form for TLC
